@@ -64,7 +64,7 @@ var lintPairs = []lintPair{
 	{"e_rfc_dnsname_empty_label", "e_dnsname_empty_label", "same", "label"},
 	{"e_rfc_dnsname_label_too_long", "e_dnsname_label_too_long", "same", "label"},
 	{"e_prohibit_dsa_usage", "e_br_prohibit_dsa_usage", "same", "any"},
-	{"w_sub_cert_aia_contains_internal_names", "w_smime_aia_contains_internal_names", "finding", "any"},
+	{"w_sub_cert_aia_contains_internal_names", "w_smime_aia_contains_internal_names", "same", "any"}, // both copies are w_ lints with identical text: same status
 	{"e_ext_san_dns_not_ia5_string", "e_ext_ian_dns_not_ia5_string", "same", "sanian"},
 	{"e_ext_san_empty_name", "e_ext_ian_empty_name", "same", "sanian"},
 	{"e_ext_san_no_entries", "e_ext_ian_no_entries", "same", "sanian"},
